@@ -1,12 +1,19 @@
 import SnaxVerif.Lemmas.Phs
 import SnaxVerif.Lemmas.PhsKeeps
 import SnaxVerif.Lemmas.PhsHistory
+import SnaxVerif.Lemmas.PhsEncode
 /-! C20 — a merged processing element, configured as decoded, computes each kernel.
+
+Top-level results: `C20_for_bodies` (kernel bodies -> encode -> merge history of any length -> decode -> exact
+function; no structural hypothesis), `C20_history` (= `C20_statement`, for kernels satisfying `kwf`),
+`combine_keeps` (= `combine_keeps_statement`).
 
 `PE.wf` are the structural invariants of the IR (unique symbol names, a default region in every choose op,
 one switch block argument per choose / mux); `covers A K` is what merging `K` into `A` establishes (every
-operation of `K` is offered under the same name). Both are evaluated by the model on every graph of every
-generated history and reported in the correspondence output (`hyp_ok`). -/
+operation of `K` is offered under the same name). They are hypotheses of the single-graph theorems
+(`decode_sound`, `switch_count`, ...) and are PROVED for every graph a merge history reaches (`reachable_inv`)
+and every kernel `encode` returns (`encode_produces_kernels`); the driver still evaluates them on every graph of
+every generated history (`hyp_ok`) as a cross-check of the model. -/
 namespace SnaxVerif.C20
 open SnaxVerif.Phs
 
@@ -208,6 +215,77 @@ theorem C20_history : C20_statement := by
   · exact decode_sound A k sw hwf huK hc hsw sem inp v
   · exact decode_reflects A k sw hwf huK hcon hc hsw sem inp v
 
+/-- full statement: `convert_generic_body_to_phs` returns a kernel in the sense of `C20_history` -/
+def encode_kwf_statement : Prop := ∀ (b : KBody) (K : PE), encode b = .ok K → K.kwf = true
+
+/-- **`encode` produces kernels** (full): a default region per choose op, plain operands, one switch per
+choose op in order, concreteness, operands refer to earlier choose ops — and the `get_id` names are pairwise
+distinct (a name is `key_counter`; the counter counts the earlier operations with the same key, and
+`key_counter` determines key and counter because the key ends in `_` and a decimal numeral contains none). -/
+theorem encode_produces_kernels : encode_kwf_statement :=
+  fun _ _ h => encode_kwf_full h
+
+/-- **`encode` preserves the function** (full): on every input of the right length, the encoded kernel
+delivers exactly the value of the `linalg.generic` body (`KBody.eval`, on the values of all block arguments),
+reading the used block arguments as its data ports — any number of operations, any arity, any semantics. -/
+theorem encode_exact (b : KBody) (K : PE) (h : encode b = .ok K)
+    {V : Type} (sem : OpCode → List V → V) (inp : List V) (hlen : inp.length = b.argTys.length) (v : V) :
+    b.eval sem inp = some v ↔ Computes sem K (fun _ => 0) (b.usedInputs inp) K.yld v := by
+  constructor
+  · exact encode_sound_aux sem h inp hlen v
+  · intro hc
+    obtain ⟨v', hv'⟩ := body_total sem b (encode_shape h).1 inp hlen
+    have := computes_det sem K _ _ _ _ (encode_sound_aux sem h inp hlen v' hv') _ hc
+    rw [hv', this]
+
+/-- **C20 down to the kernel bodies** (full): in a merge history as in `C20_history`, a kernel that is the
+encoding of body `b` decodes, and the merged element under the decoded switches computes exactly the function
+of `b`. -/
+theorem C20_history_bodies (k0 : PE) (ks : List PE) (A : PE) (h0 : k0.kwf = true)
+    (hks : ∀ k, k ∈ ks → k.kwf = true) (hargs : ∀ k, k ∈ ks → k.argTys.length = k0.argTys.length)
+    (hm : mergeAll k0 ks = .ok A) (b : KBody) (k : PE) (hk : k ∈ k0 :: ks) (hb : encode b = .ok k) :
+    ∃ sw, decode A k = .ok sw ∧ sw.length = A.trueSwitches ∧
+      ∀ (V : Type) (sem : OpCode → List V → V) (inp : List V), inp.length = b.argTys.length → ∀ v : V,
+        b.eval sem inp = some v ↔ Computes sem A (A.assign sw) (b.usedInputs inp) A.yld v := by
+  obtain ⟨sw, h1, h2, h3⟩ := C20_history k0 ks A h0 hks hargs hm k hk
+  refine ⟨sw, h1, h2, fun V sem inp hlen v => ?_⟩
+  rw [encode_exact b k hb sem inp hlen v]
+  exact h3 V sem (b.usedInputs inp) v
+
+/-- **C20 for kernel bodies, no structural hypothesis left** (full): encode any list of `linalg.generic`
+bodies (`convert_generic_body_to_phs`), merge the kernels in the given order (`append_to_abstract_graph`); if
+nothing raises and the kernels have equally many data ports, then every kernel decodes against the merged
+element, the number of decoded values is `trueSwitches`, and the element under the decoded switches computes
+exactly the function of the corresponding body. Any number of kernels, operations, muxes; any value type,
+operation semantics and input. -/
+theorem C20_for_bodies (b0 : KBody) (bs : List KBody) (k0 : PE) (ks : List PE) (A : PE)
+    (h0 : encode b0 = .ok k0) (hs : mapExcept encode bs = .ok ks)
+    (hargs : ∀ k, k ∈ ks → k.argTys.length = k0.argTys.length) (hm : mergeAll k0 ks = .ok A)
+    (i : Nat) (b : KBody) (hb : (b0 :: bs)[i]? = some b) :
+    ∃ k sw, (k0 :: ks)[i]? = some k ∧ encode b = .ok k ∧ decode A k = .ok sw ∧ sw.length = A.trueSwitches ∧
+      ∀ (V : Type) (sem : OpCode → List V → V) (inp : List V), inp.length = b.argTys.length → ∀ v : V,
+        b.eval sem inp = some v ↔ Computes sem A (A.assign sw) (b.usedInputs inp) A.yld v := by
+  obtain ⟨_, hp⟩ := mapExcept_spec encode bs ks hs
+  have hkw : ∀ k, k ∈ ks → k.kwf = true := by
+    intro k hk
+    obtain ⟨p, hpl, hpk⟩ := List.getElem_of_mem hk
+    have hkp : ks[p]? = some k := by rw [List.getElem?_eq_getElem hpl, hpk]
+    -- ks[p] is the encoding of bs[p]
+    have hlen : ks.length = bs.length := (mapExcept_spec encode bs ks hs).1
+    obtain ⟨k', hk', he⟩ := hp p _ (List.getElem?_eq_getElem (by omega : p < bs.length))
+    rw [hkp] at hk'; injection hk' with hk'; subst hk'
+    exact encode_kwf_full he
+  have hfind : ∃ k, (k0 :: ks)[i]? = some k ∧ encode b = .ok k := by
+    cases i with
+    | zero => simp at hb; subst hb; exact ⟨k0, by simp, h0⟩
+    | succ i =>
+      obtain ⟨k, hk, he⟩ := hp i b (by simpa using hb)
+      exact ⟨k, by simpa using hk, he⟩
+  obtain ⟨k, hki, he⟩ := hfind
+  obtain ⟨sw, h1, h2, h3⟩ := C20_history_bodies k0 ks A (encode_kwf_full h0) hkw hargs hm b k
+    (List.mem_of_getElem? hki) he
+  exact ⟨k, sw, hki, he, h1, h2, h3⟩
+
 /-- **`PEOp.from_operations`** (full): the element it builds computes, under switch value `i`, operation `i` of
 its data ports, port `j` feeding operand `j` — any number of operations, any arity, any semantics. -/
 theorem from_operations_computes (ops : List (OpCode × List Ty × Ty)) (A : PE) (h : peFromOperations ops = .ok A)
@@ -219,6 +297,8 @@ theorem from_operations_computes (ops : List (OpCode × List Ty × Ty)) (A : PE)
 /-! ### non-vacuity: a concrete two-kernel history -/
 
 section Examples
+def semInt0 (op : OpCode) (vs : List Int) : Int :=
+  if op = "arith.muli" then vs.getD 0 0 * vs.getD 1 0 else vs.getD 0 0 + vs.getD 1 0
 def i32 : Ty := ⟨"IntegerType", "i32"⟩
 /-- kernel 1: `(a*a) + b` -/
 def exK1 : PE :=
@@ -239,6 +319,21 @@ example : exK1.kwf = true ∧ exK2.kwf = true ∧ exK2.argTys.length = exK1.argT
 example : ∃ sw, decode exA exK2 = .ok sw ∧ sw.length = exA.trueSwitches :=
   let ⟨sw, h1, h2, _⟩ := C20_history exK1 [exK2] exA (by decide) (by decide) (by decide) (by decide) exK2 (by simp)
   ⟨sw, h1, h2⟩
+/-- a body whose encoding is kernel 2: `%0 = muli %in0, %in1; yield %0` with an unused third block argument -/
+def exB2 : KBody := ⟨[i32, i32, i32], [⟨"arith.muli", [.arg 0, .arg 1], i32⟩], .res 0⟩
+example : (encode exB2).toOption.map (·.nodes.length) = some 1 ∧ exB2.eval semInt0 [3, 5, 7] = some 15 ∧
+    exB2.usedInputs [3, 5, 7] = [(3 : Int), 5] := by decide
+/-- body of kernel 1: `%0 = muli %in0, %in0; %1 = addi %0, %in1; yield %1` (third block argument unused) -/
+def exB1 : KBody :=
+  ⟨[i32, i32, i32], [⟨"arith.muli", [.arg 0, .arg 0], i32⟩, ⟨"arith.addi", [.res 0, .arg 1], i32⟩], .res 1⟩
+/-- hypotheses of `C20_for_bodies` hold for the history [exB1, exB2]: both encode, equally many data ports, the
+merge succeeds (and needs two muxes) -/
+example : (do
+    let k0 ← encode exB1
+    let ks ← mapExcept encode [exB2]
+    let A ← mergeAll k0 ks
+    pure (ks.all (fun k => k.argTys.length == k0.argTys.length) && A.trueSwitches == 2 && k0.kwf)
+      : Except Err Bool) = .ok true := by decide
 example : ∃ A, peFromOperations [("arith.addi", [i32, i32], i32), ("arith.muli", [i32, i32], i32)] = .ok A ∧
     A.argTys.length = 2 := ⟨_, rfl, rfl⟩
 /-- hypotheses of `combine_keeps` / `combine_establishes_extends`: `Inv` holds for a kernel -/
